@@ -73,6 +73,11 @@ func ruleC14(c *Check, p *Prog) {
 	// ... and the one a stuck-at source is bound to provoke if it is not prevented: the whole sample is ONE run of
 	// length n, far beyond the k classes of the run-length tables
 	checkIndexUpper(c, p, "R-RUN-CLAMP", "RunsDistributionTest", "run-length tables b, g, e (k classes)")
+	// the tail function that turns the poker statistic into the P-value every link above compares with Alpha: its
+	// underflow cut must yield 0 (not 1) for the astronomically large statistics of constant data
+	for _, sp := range c06Specs[:2] {
+		checkEquiv(c, p, "R-CHAIN-IGAMC", sp.Key, sp.Spec, sp.What)
+	}
 	// (iv)
 	checkEquiv(c, p, "R-CHAIN-POKER-BYTES", "PokerTestBytes", eqSpec{Pkg: pkgRoot, Name: "PokerTestBytes", RefName: "PokerTestBytes", Dom: withParam(domLen(16, 5000), 1, 2, 9)}, "every byte (m=8) / both nibbles of every byte (m=4) is counted")
 }
